@@ -4,6 +4,9 @@ import (
 	"bytes"
 	"encoding/json"
 	"fmt"
+	"hash/adler32"
+	"hash/crc32"
+	"hash/fnv"
 	"math/big"
 	"math/rand"
 	"sort"
@@ -427,6 +430,9 @@ func runC17(rc *RunCtx) {
 		}
 	}
 	c17SmallOrderings(rc)
+	if rc.Shard == 0 {
+		c17ChecksumCollisions(rc)
+	}
 	// large states: more entries than any default page size, exported and re-imported
 	for big := 0; big < rc.Pick(1, 3); big++ {
 		if rc.Shard != big%rc.NShards {
@@ -563,6 +569,91 @@ func c17SmallOrderings(rc *RunCtx) {
 							}
 						}
 					}
+				}
+			}
+		}
+	}
+}
+
+// c17ChecksumCollisions: lists of the shape [A, B, A'] where A and A' occupy the same key and B occupies another key
+// whose 32-bit checksum (under the usual non-cryptographic hashes) equals A's. Duplicate detection that indexes
+// entries by a short checksum of the key instead of the key must still see the duplicate.
+func c17ChecksumCollisions(rc *RunCtx) {
+	hashes := map[string]func([]byte) uint32{
+		"crc32-ieee":       crc32.ChecksumIEEE,
+		"crc32-castagnoli": func(b []byte) uint32 { return crc32.Checksum(b, crc32.MakeTable(crc32.Castagnoli)) },
+		"crc32-koopman":    func(b []byte) uint32 { return crc32.Checksum(b, crc32.MakeTable(crc32.Koopman)) },
+		"fnv32":            func(b []byte) uint32 { h := fnv.New32(); h.Write(b); return h.Sum32() },
+		"fnv32a":           func(b []byte) uint32 { h := fnv.New32a(); h.Write(b); return h.Sum32() },
+		"adler32":          adler32.Checksum,
+	}
+	names := make([]string, 0, len(hashes))
+	for n := range hashes {
+		names = append(names, n)
+	}
+	sort.Strings(names)
+	for _, hn := range names {
+		h := hashes[hn]
+		for _, withSep := range []bool{true, false} {
+			// used nonces: keys (domain 7, nonce i)
+			seen := map[uint32]uint64{}
+			var a, b uint64
+			found := false
+			for i := uint64(1); i < 400000 && !found; i++ {
+				k := ct.UsedNonceKey(i*2654435761%1000003+i<<20, 7)
+				if !withSep {
+					k = k[:len(k)-1]
+				}
+				s := h(k)
+				if j, ok := seen[s]; ok {
+					a, b, found = j, i, true
+				}
+				seen[s] = i
+			}
+			if !found {
+				continue
+			}
+			na, nb := a*2654435761%1000003+a<<20, b*2654435761%1000003+b<<20
+			for _, shape := range [][]uint64{{na, nb, na}, {nb, na, nb}, {na, nb, nb, na}} {
+				gs := StdGenesis()
+				gs.UsedNoncesList = nil
+				for _, n := range shape {
+					gs.UsedNoncesList = append(gs.UsedNoncesList, ct.Nonce{SourceDomain: 7, Nonce: n})
+				}
+				verr := gs.Validate()
+				rc.Cov.Evaluations++
+				rc.Cov.Assert("C17.collision-implies-reject")
+				rc.Cov.Cell("C17_checksum_collisions", fmt.Sprintf("used-nonces/%s/sep=%v/accepted=%v", hn, withSep, verr == nil))
+				if verr == nil {
+					rc.Report(Violation{Props: []string{"C17"}, Monitor: "validate/collision", Sig: "C17:validate-accepts-duplicate:used-nonces",
+						Detail: fmt.Sprintf("Validate accepted a used-nonce list with a duplicated entry separated by an entry whose key has the same %s checksum", hn), Case: c17Case(gs)})
+				}
+			}
+			// attesters: keys are the identifier strings
+			seenA := map[uint32]int{}
+			ai, bi, foundA := 0, 0, false
+			mk := func(i int) string { return fmt.Sprintf("0x04%0128x", uint64(i)*0x9e3779b97f4a7c15) }
+			for i := 1; i < 400000 && !foundA; i++ {
+				k := ct.AttesterKey([]byte(mk(i)))
+				if !withSep {
+					k = k[:len(k)-1]
+				}
+				s := h(k)
+				if j, ok := seenA[s]; ok {
+					ai, bi, foundA = j, i, true
+				}
+				seenA[s] = i
+			}
+			if foundA {
+				gs := StdGenesis()
+				gs.AttesterList = []ct.Attester{{Attester: mk(ai)}, {Attester: mk(bi)}, {Attester: mk(ai)}}
+				gs.SignatureThreshold = &ct.SignatureThreshold{Amount: 1}
+				verr := gs.Validate()
+				rc.Cov.Evaluations++
+				rc.Cov.Cell("C17_checksum_collisions", fmt.Sprintf("attesters/%s/sep=%v/accepted=%v", hn, withSep, verr == nil))
+				if verr == nil {
+					rc.Report(Violation{Props: []string{"C17"}, Monitor: "validate/collision", Sig: "C17:validate-accepts-duplicate:attesters",
+						Detail: fmt.Sprintf("Validate accepted an attester list with a duplicated entry separated by an entry whose key has the same %s checksum", hn), Case: c17Case(gs)})
 				}
 			}
 		}
